@@ -61,8 +61,9 @@ Bm22Step(bm, acc, cfgs, n, e) ==
                    ELSE IF stack /\ ~c.all THEN ko("end-of-message acknowledge before the end-of-message status")
                    ELSE ok(BDel(bm, c.key))
          [] ctl = FC_ABORT ->
-              LET rv(b, k) == IF BHas(b, k) THEN BPut(b, [BGet(b, k) EXCEPT !.hi = BGet(b, k).nxt - 1]) ELSE b
-              IN ok(rv(rv(bm, CKey22(sess, da, sa)), CKey22(sess, sa, da)))
+              \* an abort ends a connection but does not un-clear packets a CTS has cleared before (the stack
+              \* finishes the window it was granted; the property is about clearance, not about aborts)
+              ok(bm)
          [] OTHER -> IF stack THEN ko("undefined FD.TP.CM control type") ELSE ok(bm)
     ELSE \* FD.TP.DT
        IF Len(d) <= 4 THEN (IF stack THEN ko("FD.TP.DT without data") ELSE ok(bm))
